@@ -8,6 +8,7 @@ mod exp;
 mod legacy;
 mod mt;
 mod sched;
+mod tconv;
 mod time;
 
 use std::io::{BufRead, BufWriter, Write};
@@ -152,6 +153,25 @@ fn main() {
                 }
                 serde_json::to_writer(&mut w, &r).unwrap();
                 w.write_all(b"\n").unwrap();
+            }
+            w.flush().unwrap();
+        }
+        Some("tconv") => {
+            // tconv <rows.ndjson> <out.ndjson>
+            let inp = std::fs::File::open(&args[2]).expect("open rows");
+            let out = std::fs::File::create(&args[3]).expect("create out");
+            let mut w = BufWriter::new(out);
+            std::panic::set_hook(Box::new(|_| {}));
+            for line in std::io::BufReader::new(inp).lines() {
+                let line = line.unwrap();
+                if line.trim().is_empty() {
+                    continue;
+                }
+                let row: tconv::Row = serde_json::from_str(&line).expect("bad row");
+                if let Some(o) = tconv::run_row(&row) {
+                    serde_json::to_writer(&mut w, &o).unwrap();
+                    w.write_all(b"\n").unwrap();
+                }
             }
             w.flush().unwrap();
         }
